@@ -28,6 +28,11 @@ impl NonZeroUsize {
 
 pub assume_specification<T, A: core::alloc::Allocator>[Vec::<T, A>::capacity](v: &Vec<T, A>) -> (r: usize)
     ensures r >= v@.len();
+/// std `<[T]>::contains`: some element equals x (second clause: for types whose PartialEq is structural equality)
+pub assume_specification<T: PartialEq>[<[T]>::contains](s: &[T], x: &T) -> (r: bool)
+    ensures
+        T::obeys_eq_spec() ==> r == (exists|i: int| 0 <= i < s@.len() && #[trigger] vstd::std_specs::cmp::PartialEqSpec::eq_spec(&s@[i], x)),
+        (T::obeys_eq_spec() && forall|a: T, b: T| #[trigger] vstd::std_specs::cmp::PartialEqSpec::eq_spec(&a, &b) == (a == b)) ==> r == s@.contains(*x);
 pub assume_specification[usize::div_ceil](a: usize, b: usize) -> (r: usize)
     requires b != 0
     ensures r as int == (a as int + b as int - 1) / (b as int);
